@@ -14,6 +14,11 @@ ill-formed answers `bad-op`).
   GEN <start> <startPrime> <eoi> <prods>
                                the model generator `gen G` (level B): `gen conflicts=<0|1> n=<states>
                                items=<..> actions=<..|?> gotos=<..>` | `gen out-of-fuel`
+  REDUCED                      `reduced=<0|1>`: the productivity check `Gen.reducedB` on the current grammar (GRAM)
+  GENV <start> <startPrime> <eoi> <prods>
+                               the model generator's own output through the compiled validator and the
+                               termination analysis (what `C08_gen_valid` proves for every grammar):
+                               `genv wf=<0|1> conflicts=<0|1> valid=<ok|conjunct> term=<0|1>` | `gen out-of-fuel`
   MARKALL <src> <dst> <fuel> <examples>
                                model of the `mark_error` loop of make_parser: `marked <n>` (result stored
                                in <dst>) | `refused <k>` (example k returns a message).  examples:
@@ -176,7 +181,7 @@ def showAction : Action → String
   | .error c => "E" ++ showCode c
 
 def showGen (o : Gen.Out) : String :=
-  let items := ";".intercalate (o.cert.items.toList.zipIdx.map fun (l, i) =>
+  let items := ";".intercalate (o.states.toList.zipIdx.map fun (l, i) =>
     s!"{i}:" ++ ",".intercalate (l.map fun it => s!"{it.pi}.{it.dot}.{it.la}"))
   let acts := if o.conflicts then "?" else
     ";".intercalate ((o.aut.action.toList.zipIdx.filterMap fun (r, i) =>
@@ -187,7 +192,7 @@ def showGen (o : Gen.Out) : String :=
         some (s!"{i}:" ++ ",".intercalate (r.map fun e => s!"{e.1}={showAction e.2}"))))
   let gotos := ";".intercalate ((o.aut.goto.toList.zipIdx.filterMap fun (r, i) =>
     if r.isEmpty then none else some (s!"{i}:" ++ ",".intercalate (r.map fun e => s!"{e.1}={e.2}"))))
-  s!"gen conflicts={if o.conflicts then 1 else 0} n={o.cert.items.size} items={items} actions={if acts.isEmpty then "-" else acts} gotos={if gotos.isEmpty then "-" else gotos}"
+  s!"gen conflicts={if o.conflicts then 1 else 0} n={o.states.size} items={items} actions={if acts.isEmpty then "-" else acts} gotos={if gotos.isEmpty then "-" else gotos}"
 
 /-! unverified search for the state pairing; its result is checked by the proved `bisimB` -/
 def allTargets (A : Automaton) : Nat :=
@@ -313,6 +318,19 @@ def handlePure (st : St) (line : String) : St × String :=
     | some start, some sp, some eoi, some prods =>
       (st, match gen ⟨start, prods, sp, eoi⟩ with
            | some o => showGen o
+           | none => "gen out-of-fuel")
+    | _, _, _, _ => (st, "bad-op")
+  | ["REDUCED"] =>
+    match st.gram with
+    | some g => (st, if Gen.reducedB g then "reduced=1" else "reduced=0")
+    | none => (st, "bad-op")
+  | ["GENV", start, sp, eoi, prods] =>
+    match start.toNat?, sp.toNat?, eoi.toNat?, parseRules prods with
+    | some start, some sp, some eoi, some prods =>
+      let g : Grammar := ⟨start, prods, sp, eoi⟩
+      (st, match gen g with
+           | some o =>
+             s!"genv wf={if decide (WfG g) then 1 else 0} conflicts={if o.conflicts then 1 else 0} valid={validWhy g o.aut o.cert} term={if termOK o.aut then 1 else 0}"
            | none => "gen out-of-fuel")
     | _, _, _, _ => (st, "bad-op")
   | ["MARKALL", src, dst, fuel, exs] =>
